@@ -661,7 +661,7 @@ def check(case, rec):
     folded |= f
   H.set_data(d, states)
   mjw.forward(m, d)
-  if H.overflow(d).any():
+  if H.overflow_fwd(d).any():
     rec.inconclusive += 1
     rec.cls("inconclusive:overflow")
     return
